@@ -38,6 +38,11 @@ func runC12Eval(c *Ctx) {
 	r := c.rng.Fork()
 	nProg, nFail := 0, 0
 	reject := map[string]int{}
+	// f6f: set by a family when the program folds an add/sub at a type wider than 64
+	// bits whose operands' containers are both at least 2 bits narrower than the type:
+	// the committed mpa.Int.Add/Sub big path then panics "Output already assigned"
+	// (known finding F6f, reached through this door).  ""/"add"/"sub".
+	f6f := ""
 	check := func(entry, form, src string, inputs []*big.Int, want []*big.Int) {
 		o := c12RunN(src, inputs, len(want))
 		nProg++
@@ -55,7 +60,17 @@ func runC12Eval(c *Ctx) {
 		switch {
 		case o.kind == 2:
 			nFail++
-			c.Fail(key+":panic", "the compiler panics ("+o.text+")", rp)
+			if f6f != "" && o.class == 2 {
+				// exactly the committed outcome of F6f; its kind (int/uint) is the 3rd field
+				kn := "uint"
+				if strings.Contains(form, ":int") {
+					kn = "int"
+				}
+				c.Fail(fmt.Sprintf("c12:%s:%s:eval-%s-%s:large:wgt64:evalentry:panic", f6f, kn, entry, strings.SplitN(form, ":", 2)[0]),
+					"the compiler panics ("+o.text+"): mpa.Int.Add/Sub big path (F6f) reached from "+entry, rp)
+			} else {
+				c.Fail(key+":panic", "the compiler panics ("+o.text+")", rp)
+			}
 		case o.kind == 1:
 			reject[entry+": "+o.text]++
 		default:
@@ -159,7 +174,13 @@ func runC12Eval(c *Ctx) {
 					want = append(want, new(big.Int).Mod(big.NewInt(last[v]+x), mod))
 				}
 				want = append(want, new(big.Int).Mod(big.NewInt(cnt+x), mod))
+				// header steps are v +/- T(small): at a type wider than 64 bits both
+				// containers are 32 bits wide, the first step folded is i + T(s)
+				if t.n > 64 {
+					f6f = "add"
+				}
 				check("For.SSA", fmt.Sprintf("header-%dvar:%s", nv, T), sb.String(), []*big.Int{big.NewInt(x)}, want)
+				f6f = ""
 			}
 		}
 	}
